@@ -24,6 +24,8 @@ pub struct Net {
     pub dead: Vec<std::net::UdpSocket>,
     /// Some(configured): every node gets a distinct public address; configured = nodes are told their address
     pub public_plan: Option<bool>,
+    /// Some((max_info_hashes, max_peers_per_info_hash, max_immutable_values, max_mutable_values)): the servers' store settings
+    pub caps: Option<(usize, usize, usize, usize)>,
     ip_counter: u32,
 }
 
@@ -33,7 +35,14 @@ impl Net {
         simclock::set_ms(1000);
         simclock::unmap_all();
         tape_seed(r.next());
-        Net { nodes: Vec::new(), now: 1000, dead: Vec::new(), public_plan: None, ip_counter: 0 }
+        Net { nodes: Vec::new(), now: 1000, dead: Vec::new(), public_plan: None, caps: None, ip_counter: 0 }
+    }
+
+    fn settings(&self) -> dht::ServerSettings {
+        match self.caps {
+            Some((ih, pp, im, mu)) => dht::ServerSettings { max_info_hashes: ih, max_peers_per_info_hash: pp, max_immutable_values: im, max_mutable_values: mu, ..Default::default() },
+            None => Default::default(),
+        }
     }
 
     pub fn dead_address(&mut self) -> SocketAddrV4 {
@@ -77,7 +86,7 @@ impl Net {
     pub fn spawn_at(&mut self, server: bool, boots: &[usize], extra: &[SocketAddrV4], public: Option<std::net::Ipv4Addr>, configured: bool) -> usize {
         let mut addrs: Vec<SocketAddrV4> = boots.iter().map(|b| self.nodes[*b].addr).collect();
         addrs.extend_from_slice(extra);
-        let m = Manual::new_cfg(&addrs, server, Default::default(), if configured { public } else { None });
+        let m = Manual::new_cfg(&addrs, server, self.settings(), if configured { public } else { None });
         let id = *m.actor.info().id();
         let addr = match public {
             Some(ip) => {
@@ -108,7 +117,7 @@ impl Net {
         let addrs: Vec<SocketAddrV4> = boots.iter().map(|b| self.nodes[*b].addr).collect();
         let configured = matches!(self.public_plan, Some(true));
         let public = if self.public_plan.is_some() { Some(*addr.ip()) } else { None };
-        let m = Manual::new_cfg_port(&addrs, server, Default::default(), if configured { public } else { None }, port);
+        let m = Manual::new_cfg_port(&addrs, server, self.settings(), if configured { public } else { None }, port);
         let id = *m.actor.info().id();
         self.nodes[d] = SimNode { up: true, m: Some(m), addr, id, server, boots: boots.to_vec() };
     }
